@@ -122,7 +122,7 @@ pub fn run(tier: Tier) -> i32 {
 fn encap_lattice(rep: &Report, tier: Tier) {
     let ps: Vec<usize> = if tier.thorough() { let mut v = p_set(); v.extend((0..=70000).step_by(11)); uniq(v) } else { p_set() };
     let bs: Vec<usize> = if tier.thorough() { let mut v = b_set(); v.extend((0..=70000).step_by(499)); uniq(v) } else { b_set() };
-    let cells: Vec<(usize, Lbl)> = ps.iter().flat_map(|&p| labels().into_iter().map(move |l| (p, l))).collect();
+    let cells: Vec<(usize, Lbl)> = ps.iter().flat_map(|&p| labels().into_iter().chain(if p < 48 { special_labels() } else { vec![] }).map(move |l| (p, l))).collect();
     cells.par_iter().for_each(|&(p, l)| {
         if rep.over_time() {
             rep.cap("encap_lattice: wall cap");
